@@ -126,6 +126,8 @@ package crypto
 //@ cfunc Fr_sum_vector props C04 C09
 //@ requires jointx != nil && x_len >= 0 && valid(x, x_len)
 //@ assigns *jointx
+//@ loop 1 invariant 0 <= i && i <= x_len
+//@ loop 1 assigns *jointx, i
 
 //@ cfunc E2_sum_vector_to_affine props C04 C09
 //@ requires sum != nil && y_len >= 0 && valid(y, y_len)
@@ -329,14 +331,17 @@ package crypto
 //@ loop 2 invariant 1 <= i && i <= s.size+1 && len(s.vA) == s.threshold+1 && len(s.a) == s.threshold+1 && len(s.y) == s.size && fresh(s.vA) && fresh(s.a) && fresh(s.y) && vssShape(s) && unchanged(s.dkgCommon) && unchanged(s.dealerIndex)
 //@ loop 2 assigns s.y[:], s.x, s.processor.nPrivate
 
-//@ func (*feldmanVSSstate).End mode int props C10 C08 C09
+//@ func (*feldmanVSSstate).End mode int props C10 C08 C07 C09
 //@ requires vssInv(s)
 //@ assigns s.running
 //@ ensures [reject-idle] !old(s.running) ==> iserr(result3, *dkgInvalidStateTransitionError) && nothingAssigned() && result0 == nil && result1 == nil && len(result2) == 0
 //@ ensures [ends] !s.running
 //@ ensures [no-keys-unless-valid] old(s.running) && !old(s.validKey) ==> iserr(result3, *dkgFailureError) && result0 == nil && result1 == nil && len(result2) == 0
 //@ ensures [class] old(s.running) && result3 != nil ==> iserr(result3, *dkgFailureError)
+//@ ensures [returned-keys-are-the-protocol's] result3 == nil ==> typeis(result0, *prKeyBLSBLS12381) && unbox(result0, *prKeyBLSBLS12381).scalar == s.x && s.x != 0 && typeis(result1, *pubKeyBLSBLS12381) && unbox(result1, *pubKeyBLSBLS12381).point == s.vA[0] && !unbox(result1, *pubKeyBLSBLS12381).isIdentity && pkWF(unbox(result1, *pubKeyBLSBLS12381)) && len(result2) == s.size
+//@ ensures [returned-key-shares-are-the-protocol's] result3 == nil ==> forall(k, 0, s.size, typeis(result2[k], *pubKeyBLSBLS12381) && unbox(result2[k], *pubKeyBLSBLS12381).point == s.y[k] && pkWF(unbox(result2[k], *pubKeyBLSBLS12381)))
 //@ loop 1 invariant len(y) == s.size && len(s.y) == s.size && fresh(y)
+//@ loop 1 invariant forall(k, 0, i, typeis(y[k], *pubKeyBLSBLS12381) && typed(unbox(y[k], *pubKeyBLSBLS12381)) && unbox(y[k], *pubKeyBLSBLS12381).point == s.y[k] && pkWF(unbox(y[k], *pubKeyBLSBLS12381)))
 
 //@ func (*feldmanVSSstate).HandleBroadcastMsg mode int props C10 C08 C09
 //@ requires vssInv(s)
@@ -446,7 +451,7 @@ package crypto
 //@ ensures [too-many-complaints-disqualify] len(s.complaints) > s.threshold ==> s.disqualified
 //@ ensures [inv] qualInv(s)
 
-//@ func (*feldmanVSSQualState).End mode int props C10 C08 C09
+//@ func (*feldmanVSSQualState).End mode int props C10 C08 C07 C09
 //@ requires qualInv(s)
 //@ assigns s.running, s.disqualified, ghost(s.processor)
 //@ ensures [reject-idle] !old(s.running) ==> iserr(result3, *dkgInvalidStateTransitionError) && nothingAssigned() && result0 == nil && result1 == nil && len(result2) == 0
@@ -454,10 +459,13 @@ package crypto
 //@ ensures [ends] old(s.running) && old(s.sharesTimeout) && old(s.complaintsTimeout) ==> !s.running
 //@ ensures [no-keys-if-disqualified] old(s.running && s.sharesTimeout && s.complaintsTimeout && s.disqualified) ==> iserr(result3, *dkgFailureError) && result0 == nil && result1 == nil && len(result2) == 0
 //@ ensures [class] old(s.running && s.sharesTimeout && s.complaintsTimeout) && result3 != nil ==> iserr(result3, *dkgFailureError) && result0 == nil
+//@ ensures [returned-keys-are-the-protocol's] result3 == nil ==> typeis(result0, *prKeyBLSBLS12381) && unbox(result0, *prKeyBLSBLS12381).scalar == s.x && s.x != 0 && typeis(result1, *pubKeyBLSBLS12381) && unbox(result1, *pubKeyBLSBLS12381).point == s.vA[0] && !unbox(result1, *pubKeyBLSBLS12381).isIdentity && pkWF(unbox(result1, *pubKeyBLSBLS12381)) && len(result2) == s.size
+//@ ensures [returned-key-shares-are-the-protocol's] result3 == nil ==> forall(k, 0, s.size, typeis(result2[k], *pubKeyBLSBLS12381) && unbox(result2[k], *pubKeyBLSBLS12381).point == s.y[k] && pkWF(unbox(result2[k], *pubKeyBLSBLS12381)))
 //@ ensures [keys-only-if-qualified] result3 == nil ==> !s.disqualified && forall(k, 0, 256, has(s.complaints, k) && s.complaints[k].received ==> s.complaints[k].answerReceived)
 //@ loop 1 invariant [no-unanswered-so-far] forall(k, 0, 256, visited(k) ==> !(s.complaints[k].received && !s.complaints[k].answerReceived))
 //@ loop 1 invariant !s.disqualified && !s.running
 //@ loop 2 invariant len(y) == s.size && len(s.y) == s.size && fresh(y) && !s.disqualified && !s.running
+//@ loop 2 invariant forall(k, 0, i, typeis(y[k], *pubKeyBLSBLS12381) && typed(unbox(y[k], *pubKeyBLSBLS12381)) && unbox(y[k], *pubKeyBLSBLS12381).point == s.y[k] && pkWF(unbox(y[k], *pubKeyBLSBLS12381)))
 
 //@ func (*feldmanVSSQualState).HandleBroadcastMsg mode int props C10 C08 C09
 //@ requires qualInv(s)
